@@ -115,7 +115,12 @@ func ruleSingleDecision(c *Ctx) {
 		ast.Inspect(fd.Body, func(n ast.Node) bool {
 			switch x := n.(type) {
 			case *ast.KeyValueExpr:
-				// composite-literal key: a write, not a read
+				// composite-literal key: a write, not a read; `ContinueOnError: other.ContinueOnError` is a copy, not a decision
+				if k, ok := x.Key.(*ast.Ident); ok && k.Name == "ContinueOnError" {
+					if se, ok := unparen(x.Value).(*ast.SelectorExpr); ok && c.isOptionField(se, "ContinueOnError") {
+						return false
+					}
+				}
 				ast.Inspect(x.Value, func(m ast.Node) bool {
 					if se, ok := m.(*ast.SelectorExpr); ok && c.isOptionField(se, "ContinueOnError") {
 						readers[c.funcName(fd)] = se.Pos()
